@@ -896,6 +896,7 @@ def pickle_check(m, roots_data, followups):
 
 
 CLONES = []
+ALIVE = []
 
 
 def clone_check(m, clones, roots, roots_data, followups, redefine=None):
@@ -1014,6 +1015,8 @@ def run_case(case, opts):
     FAULT["fired"] = False
     SELFDEP.clear()
     m = xd.Manager()
+    ALIVE.append(m)            # managers of earlier cases stay alive (same labels and keys, other containers): state kept
+    del ALIVE[:-4]             # outside a manager - module-level caches keyed by printed forms - would leak between them
     roots, roots_data = {}, {}
     ROOTKIND.clear(); ENVS.clear(); del CLONES[:]; FUNWRITES.clear(); STRIDS.clear()
     for label, spec in case["store"]:
